@@ -558,7 +558,26 @@ func (r *c17Render) sp(sb *strings.Builder) {
 }
 
 func (r *c17Render) str(sb *strings.Builder, s string) {
-	if r.rng.Intn(4) == 0 {
+	mode := r.rng.Intn(4)
+	if mode == 1 {
+		// raw: escape only what JSON requires; DEL, C1, astral runes and bytes that are
+		// not valid UTF-8 are written as they are (the decoder turns the latter into U+FFFD)
+		sb.WriteByte('"')
+		for i := 0; i < len(s); i++ {
+			switch c := s[i]; {
+			case c == '"' || c == '\\':
+				sb.WriteByte('\\')
+				sb.WriteByte(c)
+			case c < 0x20:
+				fmt.Fprintf(sb, "\\u%04x", c)
+			default:
+				sb.WriteByte(c)
+			}
+		}
+		sb.WriteByte('"')
+		return
+	}
+	if mode == 0 {
 		// escape everything that may be escaped
 		sb.WriteByte('"')
 		for _, c := range s {
@@ -634,7 +653,16 @@ func (r *c17Render) render(sb *strings.Builder, v *c17J) {
 var c17Strings = []string{"", "x", "a b", "null", "1", "1.0", "true", "[]", "/p/a th", "é", "日本", "\U0001F600",
 	"q\"uote", "back\\slash", "a/b", "tab\there", "<&>", "file.txt"}
 var c17Keys = []string{"a", "b", "k1", "x y", "é", "K", "file.txt", "m1", "xs", "c", "f1", "-", "0"}
-var c17BadKeys = []string{"a/b", "", ".", "..", "/", "x/"}
+var c17BadKeys = []string{"a/b", "", ".", "..", "/", "x/", "nul\x00", "\x01/"}
+
+// c17AdvKeys: legal file names that JSON, Go string literals and naive
+// writers quote differently: control characters (JSON needs \u00XX, Go's
+// strconv.Quote writes \a \v \x01), DEL, C1 controls, line separators, BOM,
+// astral runes (printable and not), quotes / backslashes / HTML characters,
+// bytes that are not valid UTF-8 (decoded as U+FFFD by encoding/json).
+var c17AdvKeys = []string{"\x01", "bell\a", "vt\vx", "esc\x1b[0m", "us\x1f", "del\x7f", "c1\u0080", "c1\u009f",
+	"nl\nk", "tab\tk", "cr\rk", "bs\bff\f", "q\"k", "b\\k", "b\\\"", "<k>&", "ls\u2028ps\u2029", "\ufeffbom",
+	"\U0001F600", "tag\U000E0001", "\U0010FFFF", "nb\u00a0sp", "bad\xffbyte", "\xc3(", "\xed\xa0\x80", "\\u0041", "'"}
 var c17IntTexts = []string{"0", "-0", "1", "-1", "7", "42", "2147483648", "9007199254740993", "9223372036854775807",
 	"-9223372036854775808"}
 var c17BigIntTexts = []string{"9223372036854775808", "123456789012345678901234567890", "-123456789012345678901234567890"}
@@ -731,12 +759,62 @@ func c17GenAny(rng *rand.Rand, depth int) *c17J {
 
 func c17GenObj(rng *rand.Rand, n int, elem func() *c17J) *c17J {
 	v := &c17J{kind: 'o'}
-	perm := rng.Perm(len(c17Keys))
+	pool := c17Keys
+	if rng.Intn(3) == 0 {
+		pool = append(append([]string{}, c17Keys...), c17AdvKeys...)
+	}
+	perm := rng.Perm(len(pool))
 	for i := 0; i < n && i < len(perm); i++ {
-		v.keys = append(v.keys, c17Keys[perm[i]])
+		v.keys = append(v.keys, pool[perm[i]])
 		v.arr = append(v.arr, elem())
 	}
 	return v
+}
+
+// c17ForceReencode walks type and value together and makes sure FilterJson
+// has to rebuild the enclosing containers: int members become integral float
+// literals (rewritten, soft) and struct objects get an undeclared member
+// (dropped).  The result stays acceptable to the filter (never fatal).
+func c17ForceReencode(rng *rand.Rand, t *c17Ty, v *c17J) {
+	switch t.kind {
+	case 'b':
+		if t.name == "int" && v.kind == 'i' && v.ival.IsInt64() && len(v.str) < 12 && rng.Intn(2) == 0 {
+			*v = *c17Num(v.str + []string{".0", "e0", ".00", "E+0"}[rng.Intn(4)])
+		}
+	case 'a':
+		if v.kind == 'a' {
+			for _, e := range v.arr {
+				c17ForceReencode(rng, t.elem, e)
+			}
+		}
+	case 'm':
+		if v.kind == 'o' {
+			for _, e := range v.arr {
+				c17ForceReencode(rng, t.elem, e)
+			}
+		}
+	case 's':
+		if v.kind == 'o' {
+			for i, k := range v.keys {
+				for _, f := range t.fields {
+					if f.id == k {
+						c17ForceReencode(rng, f.t, v.arr[i])
+					}
+				}
+			}
+			if rng.Intn(2) == 0 {
+				k := append([]string{"extra", "zz"}, c17AdvKeys...)[rng.Intn(2+len(c17AdvKeys))]
+				dup := false
+				for _, o := range v.keys {
+					dup = dup || o == k
+				}
+				if !dup {
+					v.keys = append(v.keys, k)
+					v.arr = append(v.arr, c17GenAny(rng, 1))
+				}
+			}
+		}
+	}
 }
 
 // c17GenValid: a value the type is supposed to accept cleanly.
@@ -1251,7 +1329,14 @@ func c17GenCases(c *Ctx, u *c17Universe, n int) []*c17Case {
 	for i := 0; i < n; i++ {
 		t := u.types[rng.Intn(len(u.types))]
 		cs := &c17Case{u: u, t: t}
-		switch k := rng.Intn(20); {
+		switch k := rng.Intn(22); {
+		case k >= 20:
+			// a container that must be rebuilt, with adversarial keys
+			for try := 0; try < 8 && !(cs.t.kind != 'b' && cs.t.kind != 'u' && u.real(cs.t).CanFilter()); try++ {
+				cs.t = u.types[rng.Intn(len(u.types))]
+			}
+			cs.v, cs.how = c17GenValid(rng, cs.t, 3), "valid-forcing-reencode"
+			c17ForceReencode(rng, cs.t, cs.v)
 		case k < 8:
 			cs.v, cs.how = c17GenValid(rng, t, 3), "valid"
 		case k < 14:
